@@ -202,7 +202,7 @@ def conditions(tier, seed, active):
     for d in (3, 4, 6, 7):
         for o in range(N_OPS):
             for k in range(len(KEYS)):
-                if quick and d != 7 and (o * len(KEYS) + k + d) % (2 if d == 4 else 4) != 0:
+                if quick and d != 7 and (o * len(KEYS) + k + d) % (3 if d == 4 else 5) != 0:
                     continue            # quick: every (operation, reference kind) for Draft 7, a rotating half / quarter for the others
                 out.append(dict(id="step/d%d/op%d/key%d" % (d, o, k), module=__name__, factory="cube",
                                 params=dict(d=d, n_ops=1, first_op=o, first_key=k), timeout=900, tags=[],
